@@ -40,6 +40,12 @@ Command histories (CL): on two datasets out of three `set-curvature` is issued a
 dataset stores afterwards).  The curvature in force is what a fresh reader finds stored: exactly one row (the
 schema's singleton), equal to the value of the last accepted command, untouched by refused ones - and that is
 the curvature the simulated differences are held against.
+Extremes and size (oracle only; nothing of these stages is handed to Coq, where reading the literals would
+dominate): compute_recession_curve on parameter sets referred to a datum +-1e6 mm away and on grids whose steps
+are 1e-3 .. 1e-6 of the magnitude of the levels (each reversed and refined); `spowtd simulate recession` in both
+modes on a dataset whose master recession curve has more than 1024 levels (thorough: 1000 .. 8192;
+harness.gen_pest.gen_long_curves_record): row k of the table = the k-th highest level of the master curve
+recomputed from the base tables, then every oracle of the ordinary command-level cases.
 """
 import io
 import math
@@ -183,22 +189,35 @@ class Own:
 
     def integral(self, ET, kappa, a, b):
         """Gauss-Legendre between the knots of both functions, bisecting every
-        piece until two levels of refinement agree to 1e-13."""
+        piece until two levels of refinement agree to 1e-14 - or until bisecting no longer
+        brings them closer although they agree to 1e-8 already: what is left then is the
+        rounding of the levels themselves (at levels around 1e6 mm a node is placed to 1e-10 mm
+        only, the integrand is known to about 1e-12 of its value whatever the width of the piece),
+        which no refinement removes.  self.noise = the disagreement left, summed over the pieces
+        (the oracle's tolerance takes it in)."""
         f = self.f(ET, kappa)
+        self.noise = 0.0
         if a == b:
             return 0.0
         sign = 1.0
         if a > b:
             a, b, sign = b, a, -1.0
         pts = [a] + [x for x in self.breaks() if a < x < b] + [b]
+        left_over = []
 
-        def rec(p, q, whole, depth):
+        def rec(p, q, whole, depth, parent):
             m = 0.5 * (p + q)
             left, right = H.gauss_legendre(f, p, m, 40), H.gauss_legendre(f, m, q, 40)
-            if depth >= 14 or abs(left + right - whole) <= 1e-14 * abs(whole) + 1e-300:
+            err = abs(left + right - whole)
+            if depth >= 14 or err <= 1e-14 * abs(whole) + 1e-300 \
+                    or (depth >= 1 and err <= 1e-8 * abs(whole) and err >= 0.25 * parent):
+                left_over.append(err)
                 return left + right
-            return rec(p, m, left, depth + 1) + rec(m, q, right, depth + 1)
-        return sign * math.fsum(rec(p, q, H.gauss_legendre(f, p, q, 40), 0) for p, q in zip(pts[:-1], pts[1:]))
+            return rec(p, m, left, depth + 1, err) + rec(m, q, right, depth + 1, err)
+        total = sign * math.fsum(rec(p, q, H.gauss_legendre(f, p, q, 40), 0, math.inf)
+                                 for p, q in zip(pts[:-1], pts[1:]))
+        self.noise = math.fsum(left_over)
+        return total
 
 
 # ------------------------------------------------------------- instrumented runs
@@ -364,7 +383,18 @@ def oracle_curve(own, sy_obj, grid, mean, kappa, ET, t, cap, out, case, what):
         out.violation('oracle', '%s: %d values for %d levels' % (what, len(t), n), case=case)
         return None
     if len(cap.cells) != max(0, n - 1):
-        out.violation('oracle', '%s: %d calls of quad for %d cells' % (what, len(cap.cells), n - 1), case=case)
+        # the captured calls cannot be laid over the cells (no per-cell error estimate): the property's wording
+        # first, with a flat tolerance wider than any inaccuracy of the transmissivity classes that is let pass
+        scale = max([1.0, abs(mean)] + [abs(x) for x in t])
+        for i in range(n - 1):
+            want = own.integral(ET, kappa, grid[i], grid[i + 1])
+            if not abs((t[i + 1] - t[i]) - want) <= (2 * DELTA_CAP + 0.01) * abs(want) + 1e-13 * scale + 8 * own.noise:
+                out.violation('oracle', '%s: t(%r) - t(%r) = %r but the integral of Sy / (-ET - curvature T) between '
+                              'these levels is %r (ET=%r, curvature=%r)' % (what, grid[i + 1], grid[i], t[i + 1] - t[i],
+                                                                            want, ET, kappa), case=case)
+                return None
+        out.violation('corr', '%s: %d calls of quad for %d cells (the model integrates once per cell)'
+                      % (what, len(cap.cells), n - 1), case=case)
         return None
     tols = []
     for cell in cap.cells:
@@ -387,8 +417,9 @@ def oracle_curve(own, sy_obj, grid, mean, kappa, ET, t, cap, out, case, what):
     scale = max([1.0, abs(mean)] + [abs(x) for x in t])
     for i, j in pairs:
         want = own.integral(ET, kappa, grid[i], grid[j])
-        # + binary64 rounding of the cumulative sum and of the mean shift
-        tol = sum(tols[min(i, j):max(i, j)]) + 1e-12 * abs(want) + 1e-13 * scale
+        # + binary64 rounding of the cumulative sum and of the mean shift, + what the rounding of the levels
+        # themselves leaves undecided in the integral (nil except at levels of very large magnitude)
+        tol = sum(tols[min(i, j):max(i, j)]) + 1e-12 * abs(want) + 1e-13 * scale + 8 * own.noise
         if not abs((t[j] - t[i]) - want) <= tol:
             out.violation('oracle', '%s: t(%r) - t(%r) = %r but the integral of Sy / (-ET - curvature T) between '
                           'these levels is %r (ET=%r, curvature=%r)' % (what, grid[j], grid[i], t[j] - t[i], want,
@@ -426,16 +457,27 @@ def oracle_shared(grid, t, tols, grid2, t2, tols2, out, case, what):
                       % (what, grid[shared[0][0]], grid[shared[i][0]], shifts[i] - shifts[0]), case=case)
 
 
+def sy_area(sy_obj):
+    """Magnitude of the area under the specific yield over its knot range: knot range x largest knot value."""
+    knots = getattr(sy_obj, 'zeta_knots_mm', None)
+    if knots is None or len(knots) < 2:
+        return 0.0
+    return (float(knots[-1]) - float(knots[0])) * max(abs(fl(sy_obj(float(x)))) for x in knots)
+
+
 def oracle_zero_curvature(sy_obj, grid, ET, t, tols, out, case):
     import spowtd.simulate_rise as sr
     try:
         W = [float(w) for w in sr.compute_rise_curve(sy_obj, np.array(grid, dtype=float), mean_storage_mm=0.0)]
     except Exception:  # pylint: disable=broad-except
         return
+    # binary64 rounding inside FITPACK's splint is absolute - a few hundred ulp of the area under the whole spline
+    # (here: of the box knot range x largest knot value), however narrow the cell (measured: 4.6e-13 mm on a cell of 1e-4 mm under a spline of area 150 mm)
+    floor = 1e-13 * sy_area(sy_obj)
     for i in range(len(grid) - 1):
         lhs, rhs = ET * (t[i + 1] - t[i]), -(W[i + 1] - W[i])
         if not abs(lhs - rhs) <= ET * (2 * tols[i] + 1e-13 * max(1.0, max(abs(x) for x in t))) \
-                + 1e-9 * max(abs(rhs), 1e-6):
+                + 1e-9 * max(abs(rhs), 1e-6) + floor:
             out.violation('oracle', 'zero curvature: ET x elapsed time between levels %r and %r = %r but the rise '
                           'curve stores %r there' % (grid[i], grid[i + 1], lhs, rhs), case=case)
             break
@@ -518,7 +560,62 @@ def gen_fl_case(rng, k):
     return dict(level='FL', sy=sy, T=T, ET=ET, kappa=kappa, grid=grid, mean=mean, grid2=grid2, gridkind=kind)
 
 
-def check_fl(cases, out, label, certify_all=False, sink=None):
+# water levels referred to a distant datum (1 km above / below it, and powers of two of that size), and the
+# relative size of a grid step: 1e-3 .. 1e-6 of the magnitude of the level
+DATUMS = [-1e6, 1e6, -1048576.0, 1048576.0, -1e5, 3e5]
+REL_STEPS = [1e-5, 1e-6, 1e-4, 3e-6, 1e-3, 3e-5]
+
+
+def extreme_grid(rng, lo, hi, rel):
+    """An increasing grid of 4-10 levels inside [lo, hi] whose steps are about `rel` x the magnitude of the
+    levels (even steps, or steps of 1/4 .. 2 times that)."""
+    n = rng.randrange(4, 11)
+    centre = lo + (hi - lo) * rng.uniform(0.1, 0.9)
+    mag = max(abs(centre), 50.0)
+    step = mag * rel * rng.uniform(0.3, 1.0)
+    even = rng.random() < 0.5
+    z = centre - step * rng.uniform(0.2, 0.8) * n
+    grid = [z]
+    for _ in range(n - 1):
+        z += step if even else step * rng.choice([0.25, 0.5, 1.0, 1.0, 2.0])
+        grid.append(z)
+    grid = sorted(set(float(g) for g in grid if lo <= g <= hi))
+    while len(grid) < 2:
+        grid = sorted(set(grid + [hi - mag * rel * len(grid)]))
+    return grid
+
+
+def gen_extreme_case(rng, k):
+    """(a) every second case: the whole parameter set referred to a distant datum (knots of both functions shifted
+    by +-1e6 mm and the like; PEATCLSM transmissivity with its ceiling above the grid), grid steps of 1e-6 ..
+    2.5e-4 of the level; (b) ordinary parameter sets on grids with steps of 1e-3 .. 1e-6 of the level."""
+    sy = gen_sy_spec(rng, 0 if k % 6 else 4)
+    if k % 2 == 0 and sy['type'] == 'spline':
+        datum = DATUMS[(k // 2 + k // 6) % len(DATUMS)]
+        sy = dict(sy, knots=[x + datum for x in sy['knots']])
+        what, rel = 'datum%+g' % datum, rng.choice([1e-6, 1e-5, 5e-5, 2.5e-4])
+    else:
+        datum, what, rel = 0.0, 'fine-steps', REL_STEPS[(k // 2) % len(REL_STEPS)]
+    syr = (sy['knots'][0], sy['knots'][-1]) if sy['type'] == 'spline' else rng.choice([(-600.0, 0.0), (-300.0, 5.0)])
+    T = gen_T_spec(rng, k, syr)
+    if T['type'] == 'peatclsm' and syr[1] > 10.0 * T['zmax'] - 50.0:
+        T = dict(T, zmax=math.ceil(syr[1] / 10.0) + rng.choice([5.0, 20.5, 100.0]))   # ceiling above the knots
+    top = ceiling(T) if T['type'] == 'spline' else ceiling(T) - 0.5
+    lo = min(syr[0], T['zk'][0] if T['type'] == 'spline' else syr[0]) - 30.0
+    hi = min(top, max(syr[1], T['zk'][-1] if T['type'] == 'spline' else syr[1]) + 30.0)
+    if lo >= hi:
+        lo = hi - 50.0
+    grid = extreme_grid(rng, lo, hi, rel)
+    ET, kappa = LATTICE[k % len(LATTICE)]
+    extra = [a + (b - a) * rng.choice([0.5, 0.25, rng.uniform(0.1, 0.9)]) for a, b in zip(grid, grid[1:])
+             if rng.random() < 0.6]
+    return dict(level='FL-extreme', what=what, sy=sy, T=T, ET=ET, kappa=kappa, grid=grid,
+                mean=rng.choice([0.0, 12.5, 3.25]), grid2=sorted(set(grid + [float(x) for x in extra])),
+                gridkind='extreme')
+
+
+def check_fl(cases, out, label, certify_all=False, sink=None, coq=True):
+    """coq=False: the cases are judged by the oracle alone (no case of them is written for Coq)."""
     qstr, qmeta = [], []
     goals, gmeta = sink if sink is not None else ([], [])
     for ci, case in enumerate(cases):
@@ -545,8 +642,9 @@ def check_fl(cases, out, label, certify_all=False, sink=None):
             if tols is None:
                 break
             runs[name] = (g, res, cap, tols)
-            qstr.append(q_case(cap, g, mean, kappa, ET, res))
-            qmeta.append((case, name))
+            if coq:
+                qstr.append(q_case(cap, g, mean, kappa, ET, res))
+                qmeta.append((case, name))
         if len(runs) < 3:
             continue
         g, res, cap, tols = runs['grid']
@@ -558,6 +656,14 @@ def check_fl(cases, out, label, certify_all=False, sink=None):
             oracle_zero_curvature(sy_obj, g, ET, res[1], tols, out, case)
         if len(g) >= 3 and len(own.breaks()) and any(min(g) < x < max(g) for x in own.breaks()):
             out.nontriv(('fl', ci, tuple(g), ET, kappa))
+        if case.get('level') == 'FL-extreme':
+            rel = min(b - a for a, b in zip(g, g[1:])) / max(abs(z) for z in g)
+            out.count('FL-extreme:%s' % case['what'])
+            out.count('FL-extreme:smallest step / level magnitude <= 1e%d' % math.ceil(math.log10(rel)))
+            if rel <= 1e-4:
+                out.nontriv(('x', ci, tuple(g), ET, kappa))
+        if not coq:
+            continue
         which = [('grid', 6 if certify_all else 3)] + ([('reversed', 2)] if ci % 3 == 0 or certify_all else []) \
             + ([('refined', 2)] if ci % 3 == 1 or certify_all else [])
         for name, limit in which:
@@ -613,7 +719,7 @@ def run_r(goals, gmeta, out, label):
 
 
 def describe(case):
-    if case.get('level') == 'FL':
+    if case.get('level') in ('FL', 'FL-extreme'):
         return ('specific yield %r, transmissivity %r, ET=%r, curvature=%r, grid %r, mean %r'
                 % (case['sy'], case['T'], case['ET'], case['kappa'], case['grid'], case['mean']))
     return 'parameters %r / %r on dataset %s' % (case.get('sy'), case.get('T'), case.get('src', {}).get('kind'))
@@ -996,6 +1102,129 @@ def run_cl(items, out, label, ncert, sink=None):
         run_r(acc['goals'], acc['gmeta'], out, label + '_r')
 
 
+# ------------------------------------------------------------- long master curves (command level, oracle only)
+
+def read_base(db):
+    """The measured master recession curve recomputed from the BASE tables written by `set-zeta-grid` and
+    `recession` (zeta_grid, recession_interval, recession_interval_zeta) - no view, no discrete_zeta: per level
+    number, the mean over the recessions that cross it of (time offset of the recession + its crossing time).
+    Returns rows (level mm, measured elapsed time d, number of recessions) by level DEscending."""
+    con = sqlite3.connect(db)
+    try:
+        steps = [float(r[0]) for r in con.execute('SELECT grid_interval_mm FROM zeta_grid')]
+        offsets = {e: float(o) for e, o in con.execute('SELECT start_epoch, time_offset_s FROM recession_interval')}
+        crossings = list(con.execute('SELECT start_epoch, zeta_number, mean_crossing_time FROM recession_interval_zeta'))
+    finally:
+        con.close()
+    if len(steps) != 1:
+        return []
+    by_level = {}
+    for epoch, number, value in crossings:
+        by_level.setdefault(int(number), []).append(offsets[epoch] + float(value))
+    return [(n * steps[0], math.fsum(v) / len(v) / 86400.0, len(v)) for n, v in sorted(by_level.items(), reverse=True)]
+
+
+def base_oracle(base, rows, out, case):
+    """`lists each level, in mm, from highest to lowest with its measured ... time`: row k of the table is the
+    k-th highest level of the master curve of the base tables, with its measured time."""
+    out.count('CL:judged-against-base-tables')
+    if len(rows) != len(base):
+        have = set(float(r[0]) for r in rows)
+        missing = [z for z, _, _ in base if not any(abs(z - h) <= 1e-9 * max(1.0, abs(z)) for h in have)]
+        out.violation('oracle', 'the table of `spowtd simulate recession` has %d rows, the master recession curve '
+                      'assembled by `recession` (tables recession_interval, recession_interval_zeta, zeta_grid) has %d '
+                      'levels %r .. %r mm; levels not listed: %d (highest of them %r mm)'
+                      % (len(rows), len(base), base[0][0], base[-1][0], len(missing), missing[0] if missing else None),
+                      case=case)
+        return False
+    tscale = max([1.0] + [abs(t) for _, t, _ in base])
+    for k, (r, (z, t, n)) in enumerate(zip(rows, base)):
+        if not abs(float(r[0]) - z) <= 1e-9 * max(1.0, abs(z)):
+            out.violation('oracle', 'the table of `spowtd simulate recession` does not list the levels from highest to '
+                          'lowest: row %d holds level %r mm, the %d-th highest level of the measured master curve is %r '
+                          'mm (row before it: %r mm)' % (k + 1, r[0], k + 1, z, rows[k - 1][0] if k else None),
+                          case=case)
+            return False
+        if not abs(float(r[1]) - t) <= 1e-9 * tscale:
+            out.violation('oracle', 'row %d of the table lists the measured time %r d at level %r mm, the master curve of '
+                          'the base tables has %r d there (mean over %d recessions)' % (k + 1, r[1], z, t, n), case=case)
+            return False
+    return True
+
+
+def long_source(rng, nlevels, out):
+    """A dataset with time-varying ET whose master recession curve (measured on the base tables) has more than
+    `nlevels` levels."""
+    rec = GP.gen_long_curves_record(rng, nlevels)
+    et = [round(0.02 + 0.01 * rng.randrange(0, 30), 4) for _ in range(rng.choice([7, 11, 24]))]
+    for _ in range(4):
+        src = dict(kind='long', rec=rec, et=et)
+        db, _, _ = assemble(src, name='cl_long')
+        levels = [z for z, _, _ in read_base(db)]
+        if len(levels) > nlevels:
+            return src, levels
+        out.count('CL-long:step-halved')
+        rec = GP.gen_long_curves_record(rng, nlevels, rec=rec)
+    raise RuntimeError('no record with more than %d recession levels' % nlevels)
+
+
+def long_cases(seed, tier, out):
+    cases = []
+    targets = [1024] if tier == 'quick' else [1000, 1024, 2048, 4096, 8192]
+    for k, target in enumerate(targets):
+        rng = C.rng_for(seed, PROP, 'long', k)
+        try:
+            src, levels = long_source(rng, target, out)
+        except RuntimeError as e:
+            out.count('CL-long:not-assembled')
+            out.notes.append('long dataset %d not assembled: %s' % (k, e))
+            continue
+        # quick: PEATCLSM transmissivity (a closed form; the spline class integrates the conductivity anew at
+        # every node of every cell); thorough: both
+        kk = 3 * (seed + k) + 1 if tier == 'quick' or k % 2 == 0 else 3 * (seed + k)
+        sy, T = gen_cl_specs(rng, kk, min(levels), max(levels))
+        cases.append(dict(level='CL-long', src=src, sy=sy, T=T, target=target))
+    return cases
+
+
+def check_long(case, out):
+    """`spowtd simulate recession` in both output modes on a long master curve, judged by the oracle alone: the
+    table against the master curve of the BASE tables (row k = k-th highest level, measured time), then the
+    oracle of the ordinary command-level cases (layout against the view, vector against table, ET, curvature,
+    water-balance differences over every cell, mean, time increasing downward)."""
+    db, d, hist = assemble(case['src'], name='cl_long')
+    tb, base = read_tables(db), read_base(db)
+    for size in GP.BLOCK_SIZES:
+        if len(base) > size:
+            out.count('CL-long:master recession curve of more than %d levels' % size)
+    out.count('CL-long:levels', len(base))
+    if not curvature_in_force(hist, tb, out, case):
+        return
+    if not tb['master']:
+        out.violation('oracle', 'the master recession curve assembled by `recession` has %d levels (base tables), the '
+                      'view average_recession_time that `simulate recession` reads has none' % len(base), case=case)
+        return
+    tab_res = run_cli(db, d, case['sy'], case['T'], False)
+    obs_res = run_cli(db, d, case['sy'], case['T'], True)
+    out.evaluations += 2
+    out.count('CL-long:sy=%s:T=%s' % (case['sy']['type'], case['T']['type']))
+    if tab_res[0] != 'ok' or obs_res[0] != 'ok':
+        bad = tab_res if tab_res[0] != 'ok' else obs_res
+        out.violation('oracle', '`spowtd simulate recession` raised %s: %r on an assembled recession curve of %d levels'
+                      % (bad[1], bad[2], len(base)), case=case)
+        return
+    table = tab_res[1]
+    if not isinstance(table, list) or not table or table[0] != HDR or any(
+            not isinstance(r, list) or len(r) != 3 for r in table[1:]):
+        out.violation('oracle', 'the output is not one table of three-valued rows under the header row %r (it starts '
+                      'with %r)' % (HDR, table[:2] if isinstance(table, list) else table), case=case)
+        return
+    if not base_oracle(base, table[1:], out, case):
+        return
+    if cl_oracle(tb, tab_res, obs_res, case['sy'], case['T'], out, case) and len(base) > 1000:
+        out.nontriv(('long', len(base), repr(case['sy']), repr(case['T'])))
+
+
 def cl_refusals(out, label):
     """No curvature row: ValueError; no recession curve: ValueError."""
     rng = C.rng_for(0, PROP, 'refusal')
@@ -1057,8 +1286,16 @@ def run(ctx, out):
     cl_refusals(out, 'cl_refusal')
     t2 = time.time()
     run_r(sink[0], sink[1], out, 'r')
+    t3 = time.time()
+    # extremes and long master curves: judged by the oracle alone (nothing of them goes to Coq)
+    xcases = [gen_extreme_case(C.rng_for(seed, PROP, 'extreme', k), k) for k in range(12 if tier == 'quick' else 120)]
+    check_fl(xcases, out, 'fl_extreme', coq=False)
+    t4 = time.time()
+    for case in long_cases(seed, tier, out):
+        check_long(case, out)
+    out.notes.append('wall: extremes %.0fs, long master curves %.0fs' % (t4 - t3, time.time() - t4))
     out.notes.append('wall: function level %.0fs, command level %.0fs, certified enclosures %.0fs'
-                     % (t1 - t0, t2 - t1, time.time() - t2))
+                     % (t1 - t0, t2 - t1, t3 - t2))
     out.rule = ('FL: compute_recession_curve on (spline | PEATCLSM specific yield) x (spline | PEATCLSM '
                 'transmissivity) x 10 (ET, curvature) pairs incl. ET = 0 and curvature = 0 x grids of 2-6 levels '
                 '(master-like multiples of a step, uniform, random, knots of either function planted as levels), '
@@ -1067,7 +1304,13 @@ def run(ctx, out):
                 'with spline and PEATCLSM parameter files; on 2 datasets of 3 a command history with set-curvature '
                 'issued 2-3 times (other value / same value / zero) before the simulation. Non-trivial: FL a grid of >= 3 levels with a knot of '
                 'either function strictly inside; CL a master curve of >= 3 levels on a dataset where the average '
-                'ET over all steps of the recession intervals differs from the average over their first steps.')
+                'ET over all steps of the recession intervals differs from the average over their first steps. '
+                'Extremes (function level, oracle only, not sent to Coq): parameter sets referred to a datum +-1e6 mm '
+                'away (grid steps 1e-6 .. 2.5e-4 of the level) and ordinary sets on grids with steps of 1e-3 .. 1e-6 of '
+                'the level magnitude, each reversed and refined. Long curves (command level, oracle only, not sent to '
+                'Coq: reading the literals would dominate): `simulate recession` in both modes on a dataset whose master '
+                'recession curve has more than 1024 levels (thorough: 1000 .. 8192), the table judged against the base '
+                'tables (row k = k-th highest level).')
     out.samples = [dict(level='FL', **{k: cases[0][k] for k in ('sy', 'T', 'ET', 'kappa', 'grid')}),
                    dict(level='CL', src_kind=items[0][1]['kind'])]
     out.assumptions += [
@@ -1093,6 +1336,10 @@ def replay(case, out):
     lvl = case.get('level')
     if lvl == 'FL':
         check_fl([case], out, 'replay_fl', certify_all=True)
+    elif lvl == 'FL-extreme':
+        check_fl([case], out, 'replay_fl_extreme', coq=False)
+    elif lvl == 'CL-long':
+        check_long(case, out)
     elif lvl == 'FLerr':
         fl_errors(out, 'replay_fl_err')
     elif lvl == 'CLrefusal':
